@@ -292,6 +292,30 @@ pub fn run(toks: &[&str], fails: &mut Vec<(String, String)>, effective: &mut Opt
             if oracle.contains("c12") {
                 crate::train_tags::oracle_c12(&c, &t, &bytes, fails);
             }
+            if oracle.contains("c10bias") {
+                // every annotated boundary is an example, also one without features: here all featureless examples are
+                // non-boundaries and they are the large majority, so a text made of filler only must stay unsegmented
+                let r = catch(|| {
+                    let (m2, _) = Model::read_slice(&bytes).map_err(|e| e.to_string())?;
+                    let p = Predictor::new(m2, false).map_err(|e| e.to_string())?;
+                    for text in &c.eval {
+                        let mut s = Sentence::from_raw(text.clone()).map_err(|e| e.to_string())?;
+                        p.predict(&mut s);
+                        if s.boundaries().iter().any(|b| *b == CB::WordBoundary) {
+                            return Err(format!(
+                                "config charw={} charn={} typew={} typen={} solver {}: every annotated boundary that no dictionary word touches is a non-boundary in the corpus ({} sentences), but the trained model splits the filler text {text:?} (scores {:?}): the featureless examples did not reach the learner",
+                                c.cw, c.cn, c.tw, c.tn, c.solver, c.corpus.len(), s.boundary_scores()
+                            ));
+                        }
+                    }
+                    Ok(())
+                });
+                match r {
+                    Ok(Ok(())) => {}
+                    Ok(Err(e)) => fails.push(("C10".into(), e)),
+                    Err(e) => fails.push(("C10".into(), format!("panic: {e}"))),
+                }
+            }
             if oracle.contains("c12sep") {
                 crate::train_tags::oracle_c12_separable(&c, &bytes, fails);
             }
